@@ -36,6 +36,8 @@ export SpsdkVerif.Generated.RotTypes (rotRows rotClassTypes pfrRkhtTypes rkhtV1S
   ahabSignEcdsaV2 ahabHashTagsV2 ahabEccKeyType ahabRsaKeyType ahabKeySizes ahabCaMask ahabTableVersion ahabTableVersionV2
   ahabTableHash ahabTableHashV2 ahabRecordsCnt ahabV2ParamsLen ahabSrkDataVersion ahabEccHashByBits
   habTagKeyPublic habAlgPkcs1 habAlgEcdsa habEccKeyType habTagCrt
+  habHeaderSize habEccExportFields habEccCoordAdd habEccCoordDiv habEccLenExtra habEccCurveRanges habEccParseFlagIdx
+  habEccParseCurveIdx habEccParseBitsIdx habEccParseCoordOff habEccParseCoordAdd habEccParseCoordDiv
   datRsaExpLength datRsaTableLen datEccHashSizes)
 end G
 
@@ -409,6 +411,70 @@ def pathAhabV2 (c : CryptoOps) (ks : List (Key × Bool)) : PyRes Bytes := do
 
 /-! ### path: HAB `SrkTable.export_fuses()` -/
 
+/-! #### `SrkItemEcc` (phase 3): `__init__` / `export` / `parse` driven by the GENERATED field description
+(`habEccExportFields`, `habEccCoord*`, `habEccCurveRanges`, `habEccParse*` are obtained by evaluating the extracted function
+bodies, see gen_C03.probe_hab_ecc).  The key-size field carries the key size in BITS (521 for P-521), not 8 x coordinate size. -/
+
+structure HabEccItem where
+  keySize : Nat
+  x : Nat
+  y : Nat
+  flag : Nat
+  deriving Repr, DecidableEq
+
+/-- `SrkItemEcc.__init__`: `coordinate_size = math.ceil(key_size / 8)` -/
+def habCoordSize (ks : Nat) : Nat := (ks + G.habEccCoordAdd) / G.habEccCoordDiv
+
+/-- the same expression in `SrkItemEcc.parse` -/
+def habParseCoordSize (ks : Nat) : Nat := (ks + G.habEccParseCoordAdd) / G.habEccParseCoordDiv
+
+/-- `get_ecc_curve(self.key_size // 8)`: `SPSDKError` outside the table -/
+def habCurveName (ks : Nat) : PyRes String :=
+  match G.habEccCurveRanges.find? (fun r => decide (r.1 ≤ ks) && decide (ks ≤ r.2.1)) with
+  | some r => .ok r.2.2
+  | none => .error .spsdk
+
+/-- one byte handed to `pack` after the header: `(source >> shift) & mask`, source 1 = flag, 2 = curve id, 3 = key_size; 0 = constant -/
+def habEccField (flag curveId keySize : Nat) (f : Nat × Nat × Nat) : Nat :=
+  if f.1 = 0 then f.2.1
+  else ((if f.1 = 1 then flag else if f.1 = 2 then curveId else if f.1 = 3 then keySize else 999999) >>> f.2.1) &&& f.2.2
+
+/-- `SrkItemEcc(key_size, x, y, flag).export()`: flag setter (`SPSDKError`), `to_bytes` (`OverflowError`), header `pack`
+    (`struct.error` for a length of 65536 or more), `get_ecc_curve` (`SPSDKError`), `ECC_KEY_TYPE[...]` (`KeyError`), `pack(">8B", …)` -/
+def habEccExport (it : HabEccItem) : PyRes Bytes := do
+  if it.flag ≠ 0 ∧ it.flag ≠ 0x80 then throw .spsdk
+  let cs := habCoordSize it.keySize
+  let xb ← toBytes cs it.x
+  let yb ← toBytes cs it.y
+  let len := G.habHeaderSize + G.habEccLenExtra + xb.length + yb.length
+  if len ≥ 65536 then throw .other
+  let nm ← habCurveName it.keySize
+  let id ← match G.habEccKeyType.lookup nm with | some i => pure i | none => throw PyErr.other
+  let fields := G.habEccExportFields.map (habEccField it.flag id it.keySize)
+  if fields.any (fun v => decide (v ≥ 256)) then throw .other
+  pure ([UInt8.ofNat G.habTagKeyPublic] ++ beEnc 2 len ++ [UInt8.ofNat G.habAlgEcdsa] ++ fields.map UInt8.ofNat ++ xb ++ yb)
+
+/-- `SrkItemEcc.parse(data)`: `Header.parse(data, KEY_PUBLIC)` (`struct.error`; wrong tag / length below the header size:
+    `SPSDKError`), `unpack_from` of flag / curve id / key size (`struct.error`), unknown curve id (`SPSDKError`), coordinates sliced at
+    `math.ceil(key_size / 8)` bytes each (slices never fail), then the constructor -/
+def habEccParse (data : Bytes) : PyRes HabEccItem := do
+  if data.length < G.habHeaderSize then throw .other
+  if data.headD 0 ≠ UInt8.ofNat G.habTagKeyPublic then throw .spsdk
+  if beDec ((data.drop 1).take 2) < G.habHeaderSize then throw .spsdk
+  let need := (G.habEccParseBitsIdx.map (·.1)).foldl max (max G.habEccParseFlagIdx G.habEccParseCurveIdx) + 1
+  if data.length < need then throw .other
+  let flag := (data.getD G.habEccParseFlagIdx 0).toNat
+  let curve := (data.getD G.habEccParseCurveIdx 0).toNat
+  let ks := (G.habEccParseBitsIdx.map fun p => (data.getD p.1 0).toNat <<< p.2).sum
+  if !(G.habEccKeyType.any (fun p => p.2 == curve)) then throw .spsdk
+  let cs := habParseCoordSize ks
+  let x := beDec ((data.drop G.habEccParseCoordOff).take cs)
+  let y := beDec ((data.drop (G.habEccParseCoordOff + cs)).take cs)
+  if flag ≠ 0 ∧ flag ≠ 0x80 then throw .spsdk
+  let _ ← toBytes (habCoordSize ks) x
+  let _ ← toBytes (habCoordSize ks) y
+  pure { keySize := ks, x := x, y := y, flag := flag }
+
 /-- `SrkItemRSA/SrkItemEcc.from_certificate(cert).export()`; `ca` = KeyUsage.key_cert_sign -/
 def habItemExport (k : Key) (ca : Bool) : PyRes Bytes :=
   let flag : Nat := if ca then 0x80 else 0
@@ -420,13 +486,7 @@ def habItemExport (k : Key) (ca : Bool) : PyRes Bytes :=
     if len ≥ 65536 then throw .spsdk
     pure ([UInt8.ofNat G.habTagKeyPublic] ++ beEnc 2 len ++ [UInt8.ofNat G.habAlgPkcs1] ++ [0, 0, 0, UInt8.ofNat flag] ++
           beEnc 2 m.length ++ beEnc 2 x.length ++ m ++ x)
-  | .ecc cv x y => do
-    let cs := coordSize cv
-    let xb ← toBytes cs x
-    let yb ← toBytes cs y
-    let id ← match G.habEccKeyType.lookup (Curve.pyName cv) with | some i => pure i | none => throw PyErr.other
-    pure ([UInt8.ofNat G.habTagKeyPublic] ++ beEnc 2 (4 + 8 + xb.length + yb.length) ++ [UInt8.ofNat G.habAlgEcdsa] ++
-          [0, 0, 0, UInt8.ofNat flag, UInt8.ofNat id, 0, UInt8.ofNat (cv.bits / 256 % 256), UInt8.ofNat (cv.bits % 256)] ++ xb ++ yb)
+  | .ecc cv x y => habEccExport { keySize := cv.bits, x := x, y := y, flag := flag }   -- `cls(public_key.key_size, public_key.x, public_key.y, flag)`
 
 def pathHab (c : CryptoOps) (ks : List (Key × Bool)) : PyRes Bytes := do
   let items ← ks.mapM (fun kc => habItemExport kc.1 kc.2)
